@@ -369,18 +369,18 @@ class C13(Spec):
         """HARDENING.md items 1-7 (see notes/C13.md, section "hardening")."""
         quick = tier == 'quick'
         # 1/2. representations of the stream and of the parameters, call spellings, plain (1, n) input
-        for _ in range(900 if quick else 6000):
+        for _ in range(600 if quick else 6000):
             yield self._clean(rng, rep=self._rand_rep(rng), mode=rng.choice(['plain', 'plain2', 'pd2']))
         for key, opts in REP_OPTIONS.items():            # every option at least a few times on its own
             for o in opts:
                 for _ in range(4):
                     yield self._clean(rng, rep={key: o}, mode=rng.choice(['plain', 'plain2', 'pd2', 'pd2']))
         # 5/6. the caller re-uses its buffer (overwrites every chunk after sending it) and overwrites the emitted blocks
-        for _ in range(400 if quick else 3000):
+        for _ in range(200 if quick else 3000):
             yield self._clean(rng, rep=self._rand_rep(rng, 0.15), scrin=1, mode=rng.choice(['plain', 'plain2', 'pd2']))
             yield self._clean(rng, queries=False, scrin=rng.randint(0, 1), scrout=1)
         # 5/7. two detectors differing in exactly one parameter, fed the same chunk objects alternately
-        for _ in range(300 if quick else 3000):
+        for _ in range(200 if quick else 3000):
             a = self._clean(rng, queries=False, rep=self._rand_rep(rng, 0.1))
             b = dict(a)
             what = rng.choice(['m', 'detect', 'init'])
